@@ -1,6 +1,7 @@
 HOOK_COMMITS = ["f2e3e94"]
 NOTES = "Runtime monitoring and sanitizers only. bin/check <id> --tier quick|thorough; VERIF_SEED seeds all random choices. Known findings: /verif/known_findings.json. See DESIGN.md."
 ENGINES = [
+    {"name": "sequential-models", "path": "harness/w_ports/src", "serves_properties": ["C01", "C02", "C08", "C11"], "kind_free_text": "model-based random API histories over local and ipc services; exact reference model compared after every step; canaries; saturation probes; history shrinking"},
     {"name": "stall-sweep", "path": "harness/vkit/src/sched.rs", "serves_properties": ["C03", "C09", "C10", "C12"], "kind_free_text": "real threads; atomics hook stalls one thread at every hooked atomic operation (depth-1 exhaustive, depth-2 sampled, random delays)"},
     {"name": "tsan", "path": "bin/vrunner.py", "serves_properties": ["C03", "C09", "C10", "C12"], "kind_free_text": "ThreadSanitizer build (-Zbuild-std) of the same workloads; reports classified (user-memory race / documented optimistic read / other)"},
     {"name": "miri", "path": "bin/vrunner.py", "serves_properties": ["C03", "C09", "C10", "C12"], "kind_free_text": "Miri: UB + data-race detector + weak-memory emulation for race-free structures/regimes (full mode), SC interleavings otherwise"},
@@ -34,5 +35,33 @@ META = {
         "level_text": "Exploration: writer/contender/readers programs over 10 value sizes x 3 alignments under every depth-1 stall point, sampled depth-2, random delays; debug, release, TSan, Miri.",
         "level_note": "Held on the executions observed only. Trusted: CLOCK_MONOTONIC (5 us margin), Miri/TSan.",
         "design_ref": "DESIGN.md section 4 C12",
+    },
+    "C01": {
+        "engine": "sequential reference model + concurrent log checker + tsan + asan",
+        "technique": "exact sequential reference model compared after every API step; pairwise delivery checker over concurrent logs; TSan; ASan",
+        "level_text": "Exploration: thousands of random API histories on local and ipc services against an exact model (recipient counts, per-pair FIFO heads, documented losses only), plus concurrent executions with perturbed schedules under TSan.",
+        "level_note": "Held on the histories observed only. The model encodes the documented rules (DESIGN.md F18); its relaxations are counted in the evidence.",
+        "design_ref": "DESIGN.md section 4 C01",
+    },
+    "C02": {
+        "engine": "sequential reference model + canaries + saturation probe + asan",
+        "technique": "payload canaries re-verified after every step and loan-to-worst-case saturation probes on model-driven histories; ASan",
+        "level_text": "Exploration: every reference to a chunk (held sample, unsent loan) is a canary checked after every step; leaks are made visible by driving each publisher to the worst case the formula allows and loaning everything.",
+        "level_note": "Held on the histories observed only. One genuine defect is recorded in known_findings.json (sample outliving its subscriber).",
+        "design_ref": "DESIGN.md section 4 C02",
+    },
+    "C08": {
+        "engine": "sequential reference model + adversarial driver + log monitor",
+        "technique": "adversarial limit-hugging histories against exact models (pub-sub and request-response) with error-log monitor",
+        "level_text": "Exploration: the generator stays at the declared limits; every limit+1 attempt must give the documented error and leave the model state unchanged, and nothing inside the limits may fail.",
+        "level_note": "Held on the histories observed only.",
+        "design_ref": "DESIGN.md section 4 C08",
+    },
+    "C11": {
+        "engine": "sequential reference model with channel buffers + shrinker",
+        "technique": "exact request/response channel model with unique ids compared after every step; delta-debugging of failing histories; ASan",
+        "level_text": "Exploration: request-response histories biased to channel reuse, judged by an exact model of the request buffers and response channel buffers including stale entries.",
+        "level_note": "Held on the histories observed only.",
+        "design_ref": "DESIGN.md section 4 C11",
     },
 }
